@@ -991,6 +991,23 @@ impl Schedule {
             self.update_depot_usage(depot_usage, vehicles, tours, provider_id);
         }
 
+        // a depot moved to the receiver (of possibly another type) must have capacity for it
+        if let Ok(receiver_type) = self.vehicle_type_of(receiver) {
+            let new_start_depot = new_tour_receiver.start_depot().unwrap();
+            if new_start_depot != self.tour_of(receiver).unwrap().start_depot().unwrap()
+                && !self.can_depot_spawn_vehicle_custom_usage(
+                    new_start_depot,
+                    receiver_type,
+                    depot_usage,
+                )
+            {
+                return Err(format!(
+                    "Cannot reassign to vehicle {}. New start depot has no capacity available.",
+                    receiver
+                ));
+            }
+        }
+
         // update extended tour of the receiver
         self.update_tour_and_costs(tours, dummy_tours, costs, receiver, new_tour_receiver);
         self.update_depot_usage(depot_usage, vehicles, tours, receiver);
